@@ -152,3 +152,31 @@ Theorem C07_addF_exact_or_overflow_refuted :
 Proof.
   exists (of_int 63), (of_bits 9218868437227405311). vm_compute. repeat split; reflexivity.
 Qed.
+
+(** floor/1, ceiling/1, truncate/1, round/1: for every finite float the exact
+    mathematical rounding of its value -- toward -inf, toward +inf, toward zero,
+    to nearest with ties away from zero -- when that integer fits in 64 bits,
+    evaluation_error(int_overflow) otherwise; never a wrapped conversion.
+    float/1 of a 64-bit integer is the nearest binary64 (ties to even), finite.
+    (Proofs/FloatToInt.v, against Flocq's Bnearbyint / Btrunc / binary_normalize.) *)
+From PV Require Import Proofs.FloatToInt.
+Theorem C07_floor : forall x : f64, fis_finite x = true -> floorFtoI x = in64 (Zfloor (B2R 53 1024 x)).
+Proof. exact floorFtoI_correct. Qed.
+Theorem C07_ceiling : forall x : f64, fis_finite x = true -> ceilingFtoI x = in64 (Zceil (B2R 53 1024 x)).
+Proof. exact ceilingFtoI_correct. Qed.
+Theorem C07_truncate : forall x : f64, fis_finite x = true -> truncateFtoI x = in64 (Ztrunc (B2R 53 1024 x)).
+Proof. exact truncateFtoI_correct. Qed.
+Theorem C07_round : forall x : f64, fis_finite x = true -> roundFtoI x = in64 (ZnearestA (B2R 53 1024 x)).
+Proof. exact roundFtoI_correct. Qed.
+Print Assumptions C07_round.
+Theorem C07_float_of_integer : forall n : Z, int64b n = true ->
+  B2R 53 1024 (floatItoF n) = round radix2 (SpecFloat.fexp 53 1024) (round_mode mode_NE) (IZR n) /\
+  fis_finite (floatItoF n) = true.
+Proof. exact floatItoF_correct. Qed.
+Print Assumptions C07_float_of_integer.
+
+(** non-vacuity: 2.5 rounds to 3, -2.5 to -3; floor(-0.5) = -1; 1.0e19 overflows *)
+Example C07_round_examples :
+  roundFtoI (of_bits 4612811918334230528) = Ok 3%Z /\ roundFtoI (of_bits 13836183955189006336) = Ok (-3)%Z /\
+  floorFtoI (of_bits 13826050856027422720) = Ok (-1)%Z /\ truncateFtoI (of_bits 4891288408196988160) = Err (EExc IntOverflow).
+Proof. vm_compute. repeat split; reflexivity. Qed.
